@@ -150,12 +150,32 @@ class Obj:
 
 
 class Ptr:
-    __slots__ = ('obj', 'off', 'via')
+    __slots__ = ('obj', 'off', 'via', 'slack')
 
-    def __init__(self, obj, off=0, via=None):
+    def __init__(self, obj, off=0, via=None, slack=0):
         self.obj = obj
         self.off = off
         self.via = via   # name of the entry-point parameter this pointer was derived from (provenance label)
+        self.slack = slack  # the true offset lies in [off, off+slack] (pointer rounded up to an alignment the object lacks)
+
+
+class AlignDep(Opaque):
+    """a value that depends on the low address bits of a buffer whose alignment is not guaranteed; `assume` is its value
+    if the buffer happened to be aligned"""
+    __slots__ = ('assume',)
+
+    def __init__(self, assume):
+        Opaque.__init__(self, 'alignment')
+        self.assume = assume
+
+
+class PtrBits(Opaque):
+    """bitwise combination of several pointers (only its low bits can be meaningful)"""
+    __slots__ = ('ptrs',)
+
+    def __init__(self, ptrs):
+        Opaque.__init__(self, 'ptrbits')
+        self.ptrs = ptrs
 
     def __repr__(self):
         return '<ptr %s+%s>' % (self.obj.name, self.off)
